@@ -20,12 +20,14 @@ def body(run):
                         label="deviation demo: a policy missing from the policy table violates InvInterop"),
         lambda: run.tlc("Handshake", "Handshake", "Handshake_dev_tok.cfg", expect="violation", count=False,
                         label="deviation demo: user-token policy of a policy that is not enabled violates InvTokens"),
+        lambda: run.tlc("Handshake", "Handshake", "Handshake_dev_tokkey.cfg", expect="violation", count=False,
+                        label="deviation demo (the code's defect until 76fe2a1): token policy key limits applied to the client key violate InvInterop"),
         lambda: run.tlc("Handshake", "Handshake",
                         "Handshake_gen_interop_quick.cfg" if q else "Handshake_gen_interop_thorough.cfg",
                         mode="gen", label="rows: one per terminal state of an endpoint-following client", timeout=3000),
         lambda: exe.__setitem__(0, run.go_build("handshake")),
     )
-    rows = dedupe(res[3].rows)
+    rows = dedupe(res[4].rows)
     if not rows:
         raise vf.Inconclusive("TLC emitted no rows")
     run.log("TLC: %d states; %d interop rows to replay" % (run.cov["states"], len(rows)))
@@ -36,7 +38,8 @@ def body(run):
     run.cov["server_configurations"] = len({vf.json.dumps(r["cfg"], sort_keys=True) for r in rows})
     run.cov["rule"] = ("one case per TLC terminal state of the generation model = (server configuration, policy, mode, "
                        "client key size, server key size, user token type); class = that tuple; quick: the four maximal "
-                       "configurations (one per server key size) with client key = server key; thorough: the complete "
+                       "configurations (one per server key size) with the client key equal to the server key or one "
+                       "step across each key size boundary (1024|2048|4096); thorough: the complete "
                        "matrix policy x mode x client key x server key x token type plus every single-pair configuration "
                        "with each token-type set")
     if not q:
